@@ -30,7 +30,8 @@ DocClasses == 1..9
 \* format metacharacters: ordinary characters for XML, but what % templates and str.format templates are made of
 cPCT == 32   cLBRACE == 33   cRBRACE == 34
 cFMT == 35   \* a conversion letter / field index: s, d, 0  (so that  % FMT  is %s, %d  and  { FMT }  is {0})
-DocClassesX == DocClasses \cup {cPLUS, cTILDE, cPCT, cLBRACE, cRBRACE, cFMT}
+cWIDE == 36  \* a BMP character beyond latin-1 (Greek, CJK, the euro sign): what narrow codecs (latin-1, ascii, cp1252) cannot express
+DocClassesX == DocClasses \cup {cPLUS, cTILDE, cPCT, cLBRACE, cRBRACE, cFMT, cWIDE}
 
 \* element names
 ePAGES == 20  ePAGE == 21  eTEXTBOX == 22  eTEXTLINE == 23  eTEXT == 24  eFIGURE == 25  eIMAGE == 26
@@ -150,11 +151,16 @@ kUTF8 == 1   kUTF16 == 2   kLATIN1 == 3   kUTF7 == 4   kHZ == 5   kISO2022 == 6
 Codecs == 1..6
 Shifting(e) == e \in {kUTF7, kHZ, kISO2022}
 EscapeChar(e) == CASE e = kUTF7 -> cPLUS [] e = kHZ -> cTILDE [] OTHER -> 0
-NeedsShift(c) == c \in {cNONASCII, cASTRAL}
-IsAsciiChar(c) == c \notin {cNONASCII, cASTRAL, cBOM, cGARBAGE}
+NeedsShift(c) == c \in {cNONASCII, cWIDE, cASTRAL}
+IsAsciiChar(c) == c \notin {cNONASCII, cWIDE, cASTRAL, cBOM, cGARBAGE}
 AllAscii(s) == \A q \in 1..Len(s) : IsAsciiChar(s[q])
 \* (the non-ASCII BMP class is realised by a character the codec has: e-acute for latin-1, a CJK ideograph for hz / iso2022_jp)
-Representable(e, s) == e \in {kUTF8, kUTF16, kUTF7} \/ \A q \in 1..Len(s) : s[q] # cASTRAL
+Representable(e, s) == e \in {kUTF8, kUTF16, kUTF7} \/ \A q \in 1..Len(s) : s[q] # cASTRAL /\ (e = kLATIN1 => s[q] # cWIDE)
+\* the `codec` argument a converter is given together with a TEXT sink: none, utf-8, latin-1, ascii.  What the codec could
+\* express is irrelevant there - a text sink takes characters - but a converter may (wrongly) filter by it:
+tNONE == 0   tUTF8 == 1   tLATIN1 == 3   tASCII == 7
+TextSinkCodecs == {tNONE, tUTF8, tLATIN1, tASCII}
+CharFits(t, c) == t \in {tNONE, tUTF8} \/ (t = tLATIN1 /\ c \notin {cWIDE, cASTRAL}) \/ (t = tASCII /\ c \notin {cNONASCII, cWIDE, cASTRAL})
 UnitCodec(u) == (u \div 1000) % 100
 UnitForm(u) == u \div 100000
 UnitChar(u) == u % 1000
